@@ -4,12 +4,12 @@ EXT = ['_ZNSt6vectorIcSaIcEE17_M_default_appendEm', 'fopen', 'fclose', 'fread', 
        'vf_h_take', 'vf_h_dbl', 'vf_h_pair', 'vf_h_done', 'vf_h_msg', 'vf_h_options', 'vf_h_objno', 'vf_h_solve_code', 'vf_h_suffix',
        '_ZN2mp10SOLReader2I1HE6serrorEPKcz']
 def units(tier):
-    F = 24 if tier == 'quick' else 40
-    u = Unit('solreader', 'wrap.cc', 'harness.c', externs=EXT, extra_repo_cc=['nl-writer2/src/nl-utils.cc'])
+    F = 48 if tier == 'quick' else 48
+    u = Unit('solreader', 'wrap.cc', 'harness.c', externs=EXT, extra_repo_cc=['nl-writer2/src/nl-utils.cc'], ll2c_args=['--inline-mem', '1024'])
     u.cdefs = ['VF_FILEMAX=%d' % F]; u.tool_c = ['vf_file.c']
     return [u]
 def harnesses(tier):
-    F = 24 if tier == 'quick' else 40
+    F = 48 if tier == 'quick' else 48
     A = ['file = arbitrary byte string of length 0..%d (every byte value) read through a deterministic stdio model (fgets/fread/getc/ungetc/rewind); libc strtol/strtod modelled (end pointer exact; value exact for integers <= 15 digits, otherwise arbitrary non-NaN)' % F,
          'declared problem sizes: any int >= 0; the handler reads 0..3 of each offered vector',
          'serror (vsnprintf formatting of the diagnostic text) is a stub; allocation never fails']
@@ -26,5 +26,12 @@ def harnesses(tier):
       mk('h_read_sol', 'ReadSOLFile on an arbitrary file from byte 0 (format detection, message loop)', [], 600),
     ]
     hs[0].unwind = 8
-    if tier == 'quick': hs = hs[:2]     # whole-function harnesses: thorough tier only (symbolic execution of the monolithic reader needs > 15 min)
+    sk = []
+    for nd in (0, 1, 2):
+        for np_ in (0, 1, 2):
+            if tier == 'quick' and (nd, np_) in ((0, 0), (1, 1)): continue
+            h = mk('h_read_sol_skel', 'ReadSOLFile (text) on a well-formed file with %d dual and %d primal values: accepted iff the announced vector lengths fit the declared problem sizes; vectors offered to the handler never exceed them' % (nd, np_), [], 0, 300, ['ND=%d' % nd, 'NP=%d' % np_])
+            h.label = 'h_read_sol_skel[d%d,p%d]' % (nd, np_); h.unwindset = ['vf_c_fgets.0:520']; h.assumptions = A[1:] + ['file skeleton concrete (message, option block 3 1 1 0, announced vector lengths), every other number a symbolic decimal digit']; h.bounds = 'text .sol skeleton, %d duals / %d primals, symbolic digits, any declared sizes' % (nd, np_); sk.append(h)
+    if tier == 'quick': hs = hs[:2]
+    else: hs += sk      # the skeleton harness still does not finish symbolic execution in 5 min: thorough tier only     # whole-function harnesses: thorough tier only (symbolic execution of the monolithic reader needs > 15 min)
     return hs
